@@ -283,7 +283,8 @@ def _register():
         for nm in ("poly-mass-P2", "poly-stiff-P2", "poly-P3xP1", "poly-facet"):
             FORM_NAMES.append(f"{nm}@{cell}")
         for nm in ("vertex-dx", "vertex-ds", "vertex+deg2-dx", "vertex+deg2-ds", "deg2+vertex-ds", "quadel1", "quadel3", "quadelGLL", "quadel+deg", "three-rules", "deg2+auto", "auto+deg0", "deg1+auto-facet",
-                   "custom-dx", "custom-samepts-dx", "custom+default-samepts-dx", "custom-ds", "vertex+vertex2-ds", "vertex+custom-ds", "default+custom-ds"):
+                   "custom-dx", "custom-samepts-dx", "custom+default-samepts-dx", "custom-ds", "vertex+vertex2-ds", "vertex+custom-ds", "default+custom-ds",
+                   "onept+onept-dx", "deg1+onept-dx", "onept+deg1-ds"):
             FORM_NAMES.append(f"{nm}@{cell}")
 
 
@@ -341,6 +342,21 @@ def named_form(name):
         form = qc * ufl.exp(f) * v1 * ufl.dx(domain=mesh, metadata={"quadrature_degree": deg, **({"quadrature_rule": "GLL"} if nm == "quadelGLL" else {})})
         if nm == "quadel+deg":
             form = form + ufl.cos(g) * v1 * ufl.dx(domain=mesh, metadata={"quadrature_degree": 4})
+    elif nm in ("onept+onept-dx", "deg1+onept-dx", "onept+deg1-ds"):
+        # two DIFFERENT one-point rules in one group: with a single point every value is "piecewise", yet it holds at that rule's point only
+        facet = nm.endswith("ds")
+        if facet and cell in ("interval", "prism"):
+            raise forms.Inapplicable("point facets / two facet types")
+        ent = oracle.entity_cellname(cell, d - 1, 0) if facet else cell
+        ev = np.asarray(basix.geometry(oracle.celltype(ent)), dtype=float)
+        pa = (0.6 * ev[0] + 0.4 * ev.mean(axis=0))[None, :]
+        pb = (0.3 * ev[-1] + 0.7 * ev.mean(axis=0))[None, :]
+        vol = basix.cell.volume(oracle.celltype(ent))
+        ca = {"quadrature_rule": "custom", "quadrature_points": pa, "quadrature_weights": np.array([0.8 * vol])}
+        cb = {"quadrature_rule": "custom", "quadrature_points": pb, "quadrature_weights": np.array([0.3 * vol])}
+        M = ufl.ds if facet else ufl.dx
+        first, second = {"onept+onept-dx": (ca, cb), "deg1+onept-dx": ({"quadrature_degree": 1}, cb), "onept+deg1-ds": (ca, {"quadrature_degree": 1})}[nm]
+        form = ufl.exp(f) * x[0] * v1 * M(domain=mesh, metadata=first) + ufl.sin(g) * f * v1 * M(domain=mesh, metadata=second)
     elif nm in ("vertex+vertex2-ds", "vertex+custom-ds", "default+custom-ds"):
         # several integrals of one facet group whose rules are set per integral (vertex / custom schemes): each is on the facet, whatever came before
         if cell in ("interval", "prism"):
